@@ -199,6 +199,9 @@ func (cl *Client) WriteLoop() {
 			if err := cl.WritePacket(*pk); err != nil {
 				// TODO : Figure out what to do with error
 				cl.ops.log.Debug("failed publishing packet", "error", err, "client", cl.ID, "packet", pk)
+				if errors.Is(err, packets.ErrPacketTooLarge) && pk.FixedHeader.Type == packets.Publish {
+					cl.ops.hooks.OnPublishDropped(cl, *pk)
+				}
 				cl.Lock()
 				if len(cl.State.outbound) == 0 {
 					_ = cl.flushOutbuf() // the refused packet was the one expected to flush the buffered writes
